@@ -205,11 +205,14 @@ fn run(e: &'static Engine, workers: usize, p: Prim, bystander: bool, cancel: boo
             Err(TryLockError::WouldBlock) => e.fail("not_released", "the mutex is still locked after everybody finished"),
             Err(TryLockError::Poisoned(_)) => e.fail("poisoned", "the cancellation unwind poisoned the mutex"),
         },
-        Prim::RwRead | Prim::RwWrite => match s.rw.try_write() {
-            Ok(_) => {}
-            Err(TryLockError::WouldBlock) => e.fail("not_released", "the rwlock is still held after everybody finished"),
-            Err(TryLockError::Poisoned(_)) => e.fail("poisoned", "the cancellation unwind poisoned the rwlock"),
-        },
+        Prim::RwRead | Prim::RwWrite => {
+            match s.rw.try_write() {
+                Ok(_) => {}
+                Err(TryLockError::WouldBlock) => e.fail("not_released", "the rwlock is still held after everybody finished"),
+                Err(TryLockError::Poisoned(_)) => e.fail("poisoned", "the cancellation unwind poisoned the rwlock"),
+            }
+            super::c12::probe(e, &s.rw);
+        }
         Prim::Sem => {
             let v = s.sem.get_value() as u32;
             if v + tg + wg != 2 {
